@@ -561,6 +561,11 @@ type State struct {
 	anchors   map[string]*Anchor
 	callCount map[string]int
 	held      map[string]bool // held mutexes (by address term)
+	// local variables whose address never escapes (ssa.Alloc with Heap == false): no callee can reach them, so
+	// they keep their contents across a call that "may modify everything"
+	privRefs []Term
+	preHavoc map[string]*HeapVer // heap versions just before the most recent havoc-all (carried across havocs)
+	keepRefs []Term              // the private cells that survive that havoc
 	lockSnap  map[string]*HeapSnap
 	notes     []string
 	trace     []string // branch decisions, for reporting
@@ -630,6 +635,8 @@ func (st *State) clone() *State {
 		n.stack[i] = f.clone()
 	}
 	n.localRefs = append([]Term(nil), st.localRefs...)
+	n.privRefs = append([]Term(nil), st.privRefs...)
+	n.keepRefs = append([]Term(nil), st.keepRefs...)
 	n.anchors = make(map[string]*Anchor, len(st.anchors))
 	for k, v := range st.anchors {
 		n.anchors[k] = v
@@ -674,6 +681,13 @@ func (st *State) heap(fam string, dims []Sort, elem Sort) *HeapVer {
 	st.heaps[fam] = h
 	if strings.HasSuffix(fam, "#len") && elem == SInt {
 		st.asserts = append(st.asserts, lenNonNeg(h))
+	}
+	if st.preHavoc != nil && len(dims) >= 1 && (strings.HasPrefix(fam, "H|") || strings.HasPrefix(fam, "C|")) {
+		if old, ok := st.preHavoc[fam]; ok && old.Name != h.Name {
+			for _, r := range st.keepRefs {
+				st.asserts = append(st.asserts, fmt.Sprintf("(= (select %s %s) (select %s %s))", h.Name, r.S, old.Name, r.S))
+			}
+		}
 	}
 	if strings.HasPrefix(fam, "MD|") && len(dims) == 2 && elem == SBool {
 		// the nil map has no keys
